@@ -1271,6 +1271,8 @@ class MindsDBParser(Parser):
         if hasattr(p, 'id'):
             query.alias = Identifier(parts=[p.id])
         if hasattr(p, 'column_list'):
+            if not isinstance(query, Select):
+                raise ParsingException('A column list is supported only for an aliased SELECT subquery')
             for i, col in enumerate(p.column_list):
                 if i >= len(query.targets):
                     break
